@@ -664,6 +664,52 @@ func onlyKnownTempsRemoved(before, after rtk.Tree) bool {
 	return true
 }
 
+// scrubbedResumes: a dump with full scrubbing under salt A is interrupted at every call (crash before the call); a
+// resume under salt B, under no scrubbing, or under partial scrubbing must be refused whenever the interrupted run left
+// a checkpoint (the pseudonyms of the committed shards were derived from salt A). The independent dump reader does not
+// model scrubbing, so this part only uses the "never succeeds if the options differ" oracle.
+func (x *explorer) scrubbedResumes(sc scenario) {
+	h := x.h
+	h.sc = sc
+	scrubbed := func(resume bool, salt string, mode retriever.ScrubMode) alteration {
+		a := h.base(resume)
+		a.opts.Scrub = mode
+		a.opts.Salt = salt
+		return a
+	}
+	h.reset(nil)
+	ref := h.exec(scrubbed(false, "salt A", retriever.ScrubFull), nil, true)
+	if ref.err != nil || ref.res.Crashed || ref.res.Panic != nil {
+		h.run.Add("scrubbed_dump_not_supported_by_this_tree", 1)
+		return
+	}
+	for k := range ref.res.Events {
+		h.reset(nil)
+		out := h.exec(scrubbed(false, "salt A", retriever.ScrubFull), &vos.Plan{K: k, Mode: vos.CrashBefore}, false)
+		if !out.res.Crashed {
+			continue
+		}
+		state := rtk.ReadTree(h.dir)
+		if _, has, err := readCheckpoint(state); !has || err != nil {
+			continue // nothing committed yet: a resume starts from scratch, any options are fine
+		}
+		for _, alt := range []struct {
+			name string
+			a    alteration
+		}{
+			{"another salt", scrubbed(true, "salt B", retriever.ScrubFull)},
+			{"no scrubbing", scrubbed(true, "", retriever.ScrubNone)},
+		} {
+			h.reset(state)
+			res := h.exec(alt.a, nil, false)
+			h.run.Add("scrubbed_resume_variants", 1)
+			if res.err == nil && !res.res.Crashed && res.res.Panic == nil {
+				h.report("resume-succeeds-with-changed-options:scrub-salt", fmt.Sprintf("dump with full scrubbing under one salt, crashed before call %d; the resume with %s succeeded", k, alt.name), nil)
+			}
+		}
+	}
+}
+
 func (x *explorer) scenario(sc scenario, mine func(int) bool) {
 	h := x.h
 	h.sc = sc
@@ -914,6 +960,9 @@ func main() {
 		i, n, _ := run.Worker()
 		h := &harness{run: run, root: root, dir: filepath.Join(root, "out")}
 		x := &explorer{h: h, counted: i == 0}
+		if i == 0 {
+			x.scrubbedResumes(scenarios(run.Tier)[0])
+		}
 		for si, sc := range scenarios(run.Tier) {
 			si := si
 			x.scenario(sc, func(k int) bool { return (k+si)%n == i })
@@ -925,6 +974,7 @@ func main() {
 		run.Finish()
 	}
 	run.Set("rule", "for each scenario (database of a 3-node/2-relationship graph + an empty graph, and a 3-node/3-relationship graph with shard size 1 [thorough: + empty graph first and two non-empty graphs] x codec x shard size x batch size): every intercepted call index k of Dump (file system calls incl. File.Read/Write/Close, database Count/Fetch) x {crash-before, crash-after, EIO, torn write at 0/n/2/n-1 bytes, short write then EIO, fetch dying or failing after j records}; from every distinct resulting directory state: a traced clean resume, every 'never succeeds if' alteration (10 option changes, 4 source edits per graph, 6 stray files, 4 damages per committed fragment), and every call index x mode of the resume followed by a clean resume (depth 2)")
+	run.Assume("scrubbed dumps are only explored for the 'never succeeds if the options differ' clause (crash before every call of a fully scrubbed dump, resume under another salt / without scrubbing): the independent dump reader does not model pseudonymisation")
 	run.Assume("a crash is modelled as: the faulted call has the stated (partial) effect, every later call has none (dead shim) - process crash, not power loss; fsync ordering is out of scope")
 	run.Assume("directory states are identified modulo the generated_at timestamp; depth 2 is explored once per distinct state after the first fault (resume is a function of directory, source and options)")
 	run.Assume("'interrupted => no manifest' is read as: a manifest is present only if the dump is complete and identical to the uninterrupted one (a crash between publishing the manifest and removing the checkpoint leaves both)")
